@@ -178,6 +178,11 @@ def translate():
     tree = tr.seq(stmts[idx[0]:])
     if tree is None:
         raise Unsupported("function falls off the end")
+    # the statements before the switch (Information lookup, 64-bit read, fits_int guard, narrowing)
+    import tr_detect_full as F
+    pre_defs, pre_term, version = F.translate_detect_prefix(stmts[:idx[0]])
+    layout = F.translate_layout(clang_ast)
+    header = F.translate_header()
     # version stamps of the creators
     stamps = {}
     sdir = REPO + "/src/djinterop/engine/schema"
@@ -197,7 +202,15 @@ def translate():
            "def stampGen : Schema → Int × Int × Int"]
     for name, (a, b, c) in sorted(stamps.items()):
         out.append("  | .%s => (%d, %d, %d)" % (name, a, b, c))
-    out += ["", "end EngineModel.Gen.Detect", ""]
+    out += ["", "/-! ### detect_schema, whole function (stored 64-bit numbers, Information lookup) -/"] + pre_defs
+    out += ["def detectPrefixGen (w : World) : Except LoadErr Unit := do " + pre_term, "",
+            "def detectSchemaGen (w : World) : Except LoadErr Schema := do",
+            "  detectPrefixGen w",
+            "  (detectGen %s %s %s w.numeric).toExcept" % tuple(version), "",
+            "/-! ### layout dispatch (engine_library_dir_utils.cpp, v1/engine_storage.cpp, engine.cpp) -/"]
+    out += layout
+    out += ["/-! ### the public version table (include/djinterop/engine/engine_schema.hpp) -/"] + header
+    out += ["end EngineModel.Gen.Detect", ""]
     return "\n".join(out)
 
 
